@@ -58,6 +58,7 @@ def profile(finding_lane=False):
     p.bool_cmp_atoms = False
     p.null_left = True
     p.bare_bool_column = True
+    p.str_add = True
     p.neg = False
     p.neg_literal = False
     if not finding_lane:
